@@ -3,7 +3,7 @@
    [build_graph K keqb kept ss] is the model of newGraph with KeptNodes = kept (None: untrimmed),
    [new_graph] the graph that is reported; EVERY kept set is covered, hence also the heuristic
    survivor choice of graphical reports. *)
-From PV Require Import M_Graph S_Graph M_Report L_Graph L_Report.
+From PV Require Import M_Graph S_Graph M_Report L_Graph L_Report L_Cutoff.
 Open Scope Z_scope.
 
 Definition key_eq (K : Type) (keqb : K -> K -> bool) : Prop := forall a b, keqb a b = true <-> a = b.
@@ -65,6 +65,16 @@ Theorem accounting_for_is_sum_flat : forall g : igraph,
   graph_total g = fold_left (fun a it => wadd a (ti_flat it)) (text_items g) 0.
 Proof. exact graph_total_is_sum_flat. Qed.
 Print Assumptions accounting_for_is_sum_flat.
+
+(* "removed are exactly those below the cutoff", the half that needs no uniqueness of the order:
+   NOTHING BELOW THE CUM CUTOFF IS EVER SHOWN by the text pipeline, whatever node count, edge cutoff,
+   sort order and rebuilds are in play (the kept set of the node-count rebuild is drawn from the
+   first-pass graph, whose entries carry their untrimmed numbers) *)
+Theorem shown_not_below_cutoff : forall o pr n v, 0 < o_nodecutoff o ->
+  In (n, v) (g_nodes (t_g (new_trimmed_text o pr))) ->
+  (abs64 (nv_cum v) <? o_nodecutoff o) = false.
+Proof. exact shown_not_below_cutoff_lemma. Qed.
+Print Assumptions shown_not_below_cutoff.
 
 (* "the entries removed are exactly those below the cutoff or outside the top N": full statement.
    Proved above: what is shown is unchanged ([text_report_nodes_unchanged]); the exact identity of
@@ -132,3 +142,12 @@ Example f42_regression :
   g_nodes (t_g (new_trimmed_text f42_opts f42_prepared)) = text_expected f42_opts f42_prepared /\
   List.length (g_nodes (t_g (new_trimmed_text f42_opts f42_prepared))) = 2%nat.
 Proof. vm_compute. split; reflexivity. Qed.
+
+(* non-vacuity of [shown_not_below_cutoff]: the F42 case has an active cutoff (6), shows two entries
+   and removes one ("tiny", cum 1), so both the hypothesis and the removal are exercised *)
+Example cutoff_active_somewhere :
+  0 < o_nodecutoff f42_opts /\
+  List.length (g_nodes (report_graph f42_opts (rebuild f42_opts f42_prepared) None)) = 3%nat /\
+  forallb (fun e => negb (abs64 (nv_cum (snd e)) <? o_nodecutoff f42_opts))
+          (g_nodes (t_g (new_trimmed_text f42_opts f42_prepared))) = true.
+Proof. vm_compute. repeat split; reflexivity. Qed.
